@@ -119,14 +119,49 @@ class Outcome:
             return float("nan")
 
 
+MUTATIONS = []          # (function name, argument) pairs: a metric wrote into one of its arguments
+
+
+def _snap(x):
+    if isinstance(x, torch.Tensor):
+        return x.detach().clone()
+    if isinstance(x, dict):
+        return {kk: _snap(v) for kk, v in x.items()}
+    import numpy as _np
+    if isinstance(x, _np.ndarray):
+        return x.copy()
+    return None
+
+
+def _same(x, s):
+    if s is None:
+        return True
+    if isinstance(x, torch.Tensor):
+        return x.shape == s.shape and torch.equal(x, s)
+    if isinstance(x, dict):
+        return set(x) == set(s) and all(_same(x[kk], s[kk]) for kk in x)
+    return bool((x == s).all()) if x.shape == s.shape else False
+
+
 def call(fn, *a, **k):
-    with warnings.catch_warnings(record=True) as w:
-        warnings.simplefilter("always")
-        try:
-            v = fn(*a, **k)
-        except Exception as ex:        # noqa: BLE001  (the outcome is judged by the caller)
-            return Outcome(exc=ex, warns=[str(x.message) for x in w])
-    return Outcome(value=v, warns=[str(x.message) for x in w])
+    """guarded call; also notes when the metric modified a tensor / array / dict argument in place
+    (targets, samples, spaces and bases belong to the caller and are reused across metric calls)"""
+    snaps = [(("arg%d" % i), x, _snap(x)) for i, x in enumerate(a[1:], start=1)] + [(n, x, _snap(x)) for n, x in k.items()]
+    try:
+        with warnings.catch_warnings(record=True) as w:
+            warnings.simplefilter("always")
+            try:
+                v = fn(*a, **k)
+            except Exception as ex:        # noqa: BLE001  (the outcome is judged by the caller)
+                return Outcome(exc=ex, warns=[str(x.message) for x in w])
+        return Outcome(value=v, warns=[str(x.message) for x in w])
+    finally:
+        for name, x, s in snaps:
+            if not _same(x, s):
+                MUTATIONS.append((getattr(fn, "__name__", str(fn)), name))
+                # restore, so that later comparisons judge the metric's value and not the damage
+                if isinstance(x, torch.Tensor):
+                    x.copy_(s)
 
 
 def ensure_unitaries(state):
